@@ -103,6 +103,7 @@ class Model:
         self._init_cache = {}
         self._run_cache = {}
         self._interp_cache = {}
+        self._planner = None
 
     # ------------------------------------------------------------ classes
     def concrete_classes(self):
@@ -277,6 +278,22 @@ class Model:
             return "?"
         return pv, {"load_kind": load_kind}
 
+    def summaries_for(self, fn):
+        """return-case summaries for the pure planners the generator consults
+        (memoised arm by interpretation of the planner; the tabulated arm uses the
+        same summary, which is what C16 establishes)"""
+        names = {n.id for n in ast.walk(fn) if isinstance(n, ast.Name)}
+        out = {}
+        if "mixed_step_memoization" in names:
+            if self._planner is None:
+                from .summary import planner_summary
+                self._planner = planner_summary(self.repo) or False
+            if self._planner:
+                out["mixed_step_memoization"] = self._planner
+                if "mixed_steps_tabulation" in names:
+                    out["schedule[]"] = self._planner
+        return out
+
     def runs(self, cname):
         if cname in self._run_cache:
             return self._run_cache[cname]
@@ -303,6 +320,7 @@ class Model:
             it = self._interp_cache.get(key)
             if it is None:
                 it = Interp(fn, entry=ent, partvars=pv + tuple(cfg), hooks=hooks)
+                it.summaries = self.summaries_for(fn)
                 it.run()
                 self._interp_cache[key] = it
             out.append(GenRun(cname, rel, owner.name, fn, cfg, it, ent))
